@@ -23,7 +23,10 @@ impl SplitCase {
 fn strategy(tier: Tier) -> BoxedStrategy<SplitCase> {
     let mut p = GenParams::ledger();
     p.max_rows = tier.pick(16, 30);
-    (ledger_strategy(p, 3), intent_strategy(), any::<u16>(), proptest::collection::vec(0u8..3, 48)).prop_map(|(base, it, mode, lay)| {
+    // a quarter of the inputs hold share classes of one issuer: symbols equal up to their last dot (BRK.A / BRK.B)
+    let mut classes = p.clone();
+    classes.secs = vec!["BRK.A", "FOO", "BRK.B"];
+    (prop_oneof![3 => ledger_strategy(p, 3), 1 => ledger_strategy(classes, 3)], intent_strategy(), any::<u16>(), proptest::collection::vec(0u8..3, 48)).prop_map(|(base, it, mode, lay)| {
         let secs = base.secs();
         // B = last security (or last two); A = the rest
         let nb = if secs.len() >= 3 && mode % 2 == 0 { 2 } else { 1 };
@@ -149,7 +152,10 @@ fn check(c: &SplitCase, obs: &mut Obs) -> Verdict {
     if !gab.0.close(&own_total, &tol) { return Verdict::Fail(format!("aggregate total {} but the securities' own totals add up to {}\n{csv}", gab.0, own_total)); }
     // the --csv-output-dir mode: a security that fails (even at its very first row) must not keep the files of the others, or the
     // aggregate file, from being written; the healthy securities' files are the ones a run without the failing half writes
-    if sab.secs.values().any(|t| !t.errors.is_empty()) && sa.secs.values().all(|t| t.errors.is_empty()) {
+    // (and, for a third of the inputs without any failure, each security's file is the one a run without the other half writes)
+    let dir_without_failure = sab.secs.values().all(|t| t.errors.is_empty()) && c.all.rows.len() % 3 == 0;
+    if dir_without_failure { obs.class("csv-output-dir-compared-without-a-failure"); }
+    if (sab.secs.values().any(|t| !t.errors.is_empty()) && sa.secs.values().all(|t| t.errors.is_empty())) || dir_without_failure {
         let dir_of = |cs: &(LedgerCase, Vec<u8>)| -> Result<Vec<(String, String)>, Verdict> {
             let mut o = opts.clone(); o.symbol_base = crate::gen::symbol_base_strings(&cs.0.opening);
             match crate::observe::run_csv_dir(&files_of(&cs.0, &cs.1), &o) { Ok((f, _)) => Ok(f), Err(RunErr::Panic(p)) => Err(classify_panic(&p, &csv)), Err(RunErr::Run(e)) | Err(RunErr::BadInit(e)) => Err(Verdict::Fail(format!("--csv-output-dir run failed: {e}\n{csv}"))) }
@@ -158,7 +164,7 @@ fn check(c: &SplitCase, obs: &mut Obs) -> Verdict {
         let fab = match dir_of(&(c.all.clone(), c.layout.clone())) { Ok(f) => f, Err(v) => return v };
         for (name, text) in &fa {
             if name.to_lowercase().contains("aggregate") { if !fab.iter().any(|(n, _)| n == name) { return Verdict::Fail(format!("--csv-output-dir: {name} is not written when another security fails (files written: {:?})\n{csv}", fab.iter().map(|f| &f.0).collect::<Vec<_>>())); } continue; }
-            match fab.iter().find(|(n, _)| n == name) { None => return Verdict::Fail(format!("--csv-output-dir: {name} is written when its securities run alone but not next to a failing security (files written: {:?})\n{csv}", fab.iter().map(|f| &f.0).collect::<Vec<_>>())), Some((_, t2)) => { if t2.to_lowercase() != text.to_lowercase() /* affiliate display spelling: first spelling seen in the run wins */ { return Verdict::Fail(format!("--csv-output-dir: {name} differs next to a failing security\n{csv}")); } } }
+            match fab.iter().find(|(n, _)| n == name) { None => return Verdict::Fail(format!("--csv-output-dir: {name} is written when its securities run alone but not next to a failing security (files written: {:?})\n{csv}", fab.iter().map(|f| &f.0).collect::<Vec<_>>())), Some((_, t2)) => { if t2.to_lowercase() != text.to_lowercase() /* affiliate display spelling: first spelling seen in the run wins */ { return Verdict::Fail(format!("--csv-output-dir: {name} differs from the file a run without the other half writes\n{csv}")); } } }
         }
         obs.class("csv-output-dir-next-to-a-failing-security");
     }
